@@ -5,6 +5,7 @@ import BFL.Bridge.Transc
 import BFL.Proofs.SUKF
 import BFL.Proofs.SUKFModel
 import BFL.Props.C15
+import BFL.Props.C03
 /-
 C05 — The serial UKF correction equals the standard additive UKF correction.
 
@@ -316,5 +317,336 @@ theorem sukf_likelihood_after_step (inv : InvFn ℝ) (bs : Nat) (R : SNoise ℝ 
       · rfl
   · intro hdiv h1 h2 h3
     simp [sukfStepLikelihood, h1, h2, h3, hdiv]
+
+
+/-! ### The contract `hX` as a theorem about `sigma_point()` (C03's model) -/
+
+/-- For the sigma points C03's model of `sigma_point()` draws (linear state, any factor routine `fac` with
+    `fac c P · (fac c P)ᵀ = c P` — the LDLT-based square root), under the unscented weights: the hypothesis `hX` of the
+    theorems above holds.  So for a linear state `hX` reduces to the factorisation contract of C03. -/
+theorem sukf_hX_of_sigma_points (fac : ℝ → Mat ℝ n n → Mat ℝ n n) (alpha beta kappa : ℝ)
+    (hc : (n : ℝ) + utLambda n alpha kappa ≠ 0) (b : GM ℝ n k) (i : Fin k)
+    (hfac : FacOn fac (utWeights n alpha beta kappa).c (b.cov i)) :
+    toM (wOuter (offX 0 (b.mean i) (sigmaPoints fac (utWeights n alpha beta kappa).c b i)) (utWeights n alpha beta kappa).cov
+        (offX 0 (b.mean i) (sigmaPoints fac (utWeights n alpha beta kappa).c b i))) = toM (b.cov i) := by
+  have h := congrArg toM (ut_reproduces_cov fac alpha beta kappa hc b i hfac)
+  rw [toM_utCov] at h
+  rw [offX_zero, toM_wOuter, ← h]
+  congr 1
+  ext a j
+  simp [utOffsets, subCols, Matrix.mul_diagonal]
+
+/-! ### Round 4: the correction objects over call histories
+
+`SukfSys` / `sukfSysRun` (and `UkfSys` / `ukfSysRun`) run one correction object through an arbitrary list of
+`correct()`, `skip()`, move-construction, `getLikelihood()` and noise-change operations.  The statements below are
+proved by induction over that list. -/
+
+section history
+variable {bs : Nat}
+
+/-- a step leaves nothing in the members exactly on its four early returns -/
+theorem sukf_step_stored_none_iff (c : SukfCall ℝ) :
+    sukfStepStored bs c = none ↔
+      (c.inp.validMeas = false ∨ c.msz % bs ≠ 0 ∨ c.inp.validPred = false ∨ c.inp.validInnov = false) := by
+  unfold sukfStepStored
+  by_cases h1 : c.inp.validMeas = true ∧ c.msz % bs = 0
+  · rw [dif_pos h1]
+    cases hp : c.inp.validPred
+    · simp
+    · cases hi : c.inp.validInnov
+      · simp
+      · simp only [Bool.not_true, Bool.false_eq_true, if_false, reduceCtorEq, false_iff, not_or, Bool.not_eq_false,
+          ne_eq, not_not]
+        exact ⟨h1.1, h1.2, not_false, not_false⟩
+  · rw [dif_neg h1]
+    simp only [true_iff]
+    by_cases hm : c.inp.validMeas = true
+    · right; left; exact fun h => h1 ⟨hm, h⟩
+    · left; simpa using hm
+
+/-- `getLikelihood()` right after a (non-skipped) step, the noise covariance unchanged: the likelihoods of that step —
+    `sukfStepLikelihood`, which `sukf_correct_eq_ukf` equates with the standard ones — or none after an early return -/
+theorem sukf_query_after_step (inv : InvFn ℝ) (Rfn : NoiseFn ℝ bs) (sk : Bool) (c : SukfCall ℝ) :
+    sukfObjLik inv Rfn { skip := sk, stored := sukfStepStored bs c }
+      = (sukfStepLikelihood inv bs (Rfn c.msz) c.inp c.b).map (fun l => ⟨c.k, l⟩) := by
+  unfold sukfObjLik sukfStepStored sukfStepLikelihood
+  by_cases h1 : c.inp.validMeas = true ∧ c.msz % bs = 0
+  · simp only [dif_pos h1]
+    cases hp : c.inp.validPred <;> cases hi : c.inp.validInnov <;> simp
+    exact ⟨rfl, HEq.rfl⟩
+  · simp only [dif_neg h1, Option.map_none]
+
+/-- `getLikelihood()` does not change the object: asked again (any number of times) it answers the same -/
+theorem sukf_query_repeatable (inv : InvFn ℝ) (σ : SukfSys ℝ bs) :
+    (sukfSysStep inv σ .query).1 = σ ∧
+    (sukfSysStep inv (sukfSysStep inv σ .query).1 .query).2 = (sukfSysStep inv σ .query).2 := ⟨rfl, rfl⟩
+
+/-- a freshly constructed and a move-constructed object report no likelihood, whatever the source object held -/
+theorem sukf_fresh_or_moved_no_likelihood (inv : InvFn ℝ) (Rfn : NoiseFn ℝ bs) (o : SukfObj ℝ bs) :
+    sukfObjLik inv Rfn (sukfNew : SukfObj ℝ bs) = none ∧ sukfObjLik inv Rfn (sukfMoved o) = none ∧
+    (sukfMoved o).skip = o.skip := ⟨rfl, rfl, rfl⟩
+
+theorem sukfSysRun_append (inv : InvFn ℝ) (σ : SukfSys ℝ bs) (ops₁ ops₂ : List (SukfOp ℝ bs)) :
+    sukfSysRun inv σ (ops₁ ++ ops₂)
+      = ((sukfSysRun inv (sukfSysRun inv σ ops₁).1 ops₂).1,
+         (sukfSysRun inv σ ops₁).2 ++ (sukfSysRun inv (sukfSysRun inv σ ops₁).1 ops₂).2) := by
+  induction ops₁ generalizing σ with
+  | nil => simp [sukfSysRun]
+  | cons op ops ih => simp [sukfSysRun, ih, List.append_assoc]
+
+/-- the skip flag after any history is the status of the last `skip()` call (the initial flag if there was none):
+    corrections, queries and moves do not touch it -/
+theorem sukf_history_skip (inv : InvFn ℝ) (σ : SukfSys ℝ bs) (ops : List (SukfOp ℝ bs)) :
+    (sukfSysRun inv σ ops).1.obj.skip = sukfHistorySkip σ.obj.skip ops := by
+  induction ops generalizing σ with
+  | nil => rfl
+  | cons op ops ih =>
+    simp only [sukfSysRun, sukfHistorySkip]
+    rw [ih]
+    congr 1
+    cases op with
+    | correct c => simp only [sukfSysStep]; split <;> rfl
+    | skip st => rfl
+    | move => rfl
+    | query => rfl
+    | setNoise f => rfl
+
+/-- **The members after any history.**  What `getLikelihood()` reads after an arbitrary sequence of operations is what
+    the last operation that touched the members left there: nothing if that was a move, the result of `correctStep` if
+    it was a `correct()` executed while the object was not skipped; skipped corrections, queries, `skip()` calls and
+    noise changes leave the members as they were. -/
+theorem sukf_history_stored (inv : InvFn ℝ) (σ : SukfSys ℝ bs) (ops : List (SukfOp ℝ bs)) :
+    (sukfSysRun inv σ ops).1.obj.stored =
+      match sukfLastTouch σ.obj.skip ops with
+      | none => σ.obj.stored
+      | some (.correct c) => sukfStepStored bs c
+      | some _ => none := by
+  induction ops generalizing σ with
+  | nil => rfl
+  | cons op ops ih =>
+    simp only [sukfSysRun, sukfLastTouch]
+    rw [ih]
+    cases op with
+    | correct c =>
+      by_cases hs : σ.obj.skip = true
+      · simp only [sukfSysStep, hs, if_true]
+        rcases sukfLastTouch true ops with _ | t
+        · rfl
+        · cases t <;> rfl
+      · have hs' : σ.obj.skip = false := by simpa using hs
+        simp only [sukfSysStep, hs', Bool.false_eq_true, if_false]
+        rcases sukfLastTouch false ops with _ | t
+        · rfl
+        · cases t <;> rfl
+    | skip st =>
+      simp only [sukfSysStep]
+      rcases sukfLastTouch st ops with _ | t
+      · rfl
+      · cases t <;> rfl
+    | move =>
+      simp only [sukfSysStep, sukfMoved]
+      rcases sukfLastTouch σ.obj.skip ops with _ | t
+      · rfl
+      · cases t <;> rfl
+    | query =>
+      simp only [sukfSysStep]
+      rcases sukfLastTouch σ.obj.skip ops with _ | t
+      · rfl
+      · cases t <;> rfl
+    | setNoise f =>
+      simp only [sukfSysStep]
+      rcases sukfLastTouch σ.obj.skip ops with _ | t
+      · rfl
+      · cases t <;> rfl
+
+/-- **When the likelihood is unavailable.**  On an object driven from its construction through any history, the
+    likelihood is reported exactly when the last operation that touched the members is a `correct()` that was not
+    skipped, had a valid measurement of a size that is a multiple of the block size, and whose `predictedMeasure()`
+    and `innovation()` succeeded; it is then the likelihood of that correction (`sukf_query_after_step`) under the noise
+    covariance in force at query time. -/
+theorem sukf_history_likelihood_available_iff (inv : InvFn ℝ) (Rfn : NoiseFn ℝ bs) (ops : List (SukfOp ℝ bs)) :
+    let σ' := (sukfSysRun inv ⟨sukfNew, Rfn⟩ ops).1
+    (sukfObjLik inv σ'.Rfn σ'.obj).isSome = true ↔
+      ∃ c, sukfLastTouch false ops = some (.correct c) ∧ c.inp.validMeas = true ∧ c.msz % bs = 0 ∧
+        c.inp.validPred = true ∧ c.inp.validInnov = true := by
+  intro σ'
+  have hst : σ'.obj.stored = _ := sukf_history_stored inv ⟨sukfNew, Rfn⟩ ops
+  have hiff : (sukfObjLik inv σ'.Rfn σ'.obj).isSome = true ↔ σ'.obj.stored ≠ none := by
+    unfold sukfObjLik
+    cases σ'.obj.stored <;> simp
+  rw [hiff, hst]
+  simp only [sukfNew]
+  cases hlt : sukfLastTouch false ops with
+  | none => simp
+  | some t =>
+    cases t with
+    | correct c =>
+      simp only [ne_eq, sukf_step_stored_none_iff, not_or, Bool.not_eq_false, not_not]
+      constructor
+      · intro h; exact ⟨c, rfl, h.1, h.2.1, h.2.2.1, h.2.2.2⟩
+      · rintro ⟨c', hc', h⟩
+        have : c' = c := by injection (Option.some.inj hc').symm
+        subst this; exact ⟨h.1, h.2.1, h.2.2.1, h.2.2.2⟩
+    | skip st => simp
+    | move => simp
+    | query => simp
+    | setNoise f => simp
+
+/-- After any history: a `correct()` on a non-skipped object with a measurement whose size is not a multiple of the
+    block size returns the predicted belief, and the likelihood query that follows reports none. -/
+theorem sukf_history_nondividing (inv : InvFn ℝ) (σ : SukfSys ℝ bs) (ops : List (SukfOp ℝ bs)) (c : SukfCall ℝ)
+    (hsk : sukfHistorySkip σ.obj.skip ops = false) (hnd : c.msz % bs ≠ 0) :
+    (sukfSysRun inv σ (ops ++ [.correct c, .query])).2
+      = (sukfSysRun inv σ ops).2 ++ [.belief c.n c.k c.b, .lik none] := by
+  rw [sukfSysRun_append]
+  have hs := sukf_history_skip inv σ ops
+  rw [hsk] at hs
+  simp only [sukfSysRun, sukfSysStep, hs, Bool.false_eq_true, if_false, Option.toList, List.append_nil,
+    sukf_size_mismatch_identity inv bs _ c.inp c.b c.out hnd]
+  have : sukfStepStored bs c = none := (sukf_step_stored_none_iff c).2 (Or.inr (Or.inl hnd))
+  simp [sukfObjLik, this]
+
+/-! #### serial = standard, lifted to histories -/
+
+/-- the guards of `sukf_correct_eq_ukf` for one call under the noise covariance `R` -/
+def SukfCall.Guards (c : SukfCall ℝ) (bs : Nat) (R : SNoise ℝ c.msz bs) (hdiv : c.msz % bs = 0) : Prop :=
+  (∀ j, 0 ≤ c.inp.wc j) ∧
+  (R.cast (Nat.div_mul_cancel (Nat.dvd_of_mod_eq_zero hdiv))).BlockDiag ∧
+  (∀ j, (toM ((R.cast (Nat.div_mul_cancel (Nat.dvd_of_mod_eq_zero hdiv))).blockAt j)).PosDef) ∧
+  (∀ i, toM (wOuter (offX c.inp.nc (c.b.mean i) (c.inp.X i)) c.inp.wc (offX c.inp.nc (c.b.mean i) (c.inp.X i))) = toM (c.b.cov i))
+
+/-- the histories the property speaks about: every measurement has a size that is a multiple of the block size and,
+    where all three model calls succeed, satisfies the guards; the measurement model keeps its noise covariance -/
+def SukfOp.Admissible (Rfn : NoiseFn ℝ bs) : SukfOp ℝ bs → Prop
+  | .correct c => ∃ hdiv : c.msz % bs = 0,
+      (c.inp.validMeas = true ∧ c.inp.validPred = true ∧ c.inp.validInnov = true) → c.Guards bs (Rfn c.msz) hdiv
+  | .setNoise _ => False
+  | _ => True
+
+theorem GM.ext' {n k : Nat} {a b : GM ℝ n k} (h1 : ∀ i, a.mean i = b.mean i) (h2 : ∀ i, a.cov i = b.cov i)
+    (h3 : a.weight = b.weight) : a = b := by
+  cases a; cases b
+  simp only [GM.mk.injEq]
+  exact ⟨funext h1, funext h2, h3⟩
+
+/-- one admissible call on non-skipped objects: same output mixture, same likelihood answer afterwards -/
+theorem sukf_step_eq_ukf_step (inv : InvFn ℝ) (hinv : InvCorrect inv) (Rfn : NoiseFn ℝ bs) (c : SukfCall ℝ)
+    (hdiv : c.msz % bs = 0)
+    (hg : (c.inp.validMeas = true ∧ c.inp.validPred = true ∧ c.inp.validInnov = true) → c.Guards bs (Rfn c.msz) hdiv)
+    (sk : Bool) :
+    sukfCorrect inv bs (Rfn c.msz) c.inp c.b c.out = (ukfStep inv bs hdiv (Rfn c.msz) c.inp c.b c.out).1 ∧
+    sukfObjLik inv Rfn { skip := sk, stored := sukfStepStored bs c } = (ukfStep inv bs hdiv (Rfn c.msz) c.inp c.b c.out).2 := by
+  rw [sukf_query_after_step]
+  by_cases hv : c.inp.validMeas = true ∧ c.inp.validPred = true ∧ c.inp.validInnov = true
+  · obtain ⟨hw, hBD, hRpd, hX⟩ := hg hv
+    have key := fun i => sukf_correct_eq_ukf inv hinv bs (Rfn c.msz) c.inp c.b c.out hdiv hv hw hBD hRpd hX i
+    have hl := (sukf_likelihood_after_step inv bs (Rfn c.msz) c.inp c.b).2 hdiv hv.1 hv.2.1 hv.2.2
+    constructor
+    · apply GM.ext'
+      · intro i
+        have := (key i).1
+        simp only [ukfStep, hv.1, hv.2.1, hv.2.2, Bool.not_true, Bool.false_eq_true, if_false, Vec.of_apply]
+        exact Vec.ext (fun r => congrFun this r)
+      · intro i
+        have := (key i).2.1
+        simp only [ukfStep, hv.1, hv.2.1, hv.2.2, Bool.not_true, Bool.false_eq_true, if_false, Vec.of_apply]
+        exact toM_injective this
+      · simp [sukfCorrect, ukfStep, hv.1, hv.2.1, hv.2.2, hdiv]
+    · rw [hl]
+      simp only [ukfStep, hv.1, hv.2.1, hv.2.2, Bool.not_true, Bool.false_eq_true, if_false, Option.map_some]
+      congr 1
+      refine Sigma.ext rfl (heq_of_eq ?_)
+      ext i
+      have := (key i).2.2
+      simpa using this
+  · have hb : sukfCorrect inv bs (Rfn c.msz) c.inp c.b c.out = c.b := by
+      apply sukf_invalid_identity
+      by_contra hcon
+      simp only [not_or, Bool.not_eq_false] at hcon
+      exact hv ⟨hcon.1, hcon.2.1, hcon.2.2⟩
+    have hn : sukfStepLikelihood inv bs (Rfn c.msz) c.inp c.b = none := by
+      apply (sukf_likelihood_after_step inv bs (Rfn c.msz) c.inp c.b).1
+      by_contra hcon
+      simp only [not_or, Bool.not_eq_false, ne_eq, not_not] at hcon
+      exact hv ⟨hcon.1, hcon.2.2.1, hcon.2.2.2⟩
+    rw [hb, hn]
+    cases hm : c.inp.validMeas <;> cases hp : c.inp.validPred <;> cases hi : c.inp.validInnov <;>
+      simp_all [ukfStep]
+
+/-- **Serial = standard over histories.**  Two objects, a `SUKFCorrection` and an additive `UKFCorrection`, in
+    corresponding states (same skip flag, same likelihood answer), driven through the same arbitrary sequence of
+    `correct()` (any sizes, component counts, failing model calls), `skip()`, move-construction and `getLikelihood()`
+    operations under a noise covariance that stays the same: every returned mixture and every likelihood answer —
+    including "none" — coincide, and the objects stay in corresponding states. -/
+theorem sukf_history_eq_ukf (inv : InvFn ℝ) (hinv : InvCorrect inv) (Rfn : NoiseFn ℝ bs)
+    (ops : List (SukfOp ℝ bs)) (hadm : ∀ op ∈ ops, op.Admissible Rfn)
+    (so : SukfObj ℝ bs) (uo : UkfObj ℝ) (hskip : so.skip = uo.skip) (hlik : sukfObjLik inv Rfn so = uo.stored) :
+    (sukfSysRun inv ⟨so, Rfn⟩ ops).2 = (ukfSysRun inv ⟨uo, Rfn⟩ ops).2 ∧
+    (sukfSysRun inv ⟨so, Rfn⟩ ops).1.obj.skip = (ukfSysRun inv ⟨uo, Rfn⟩ ops).1.obj.skip ∧
+    sukfObjLik inv Rfn (sukfSysRun inv ⟨so, Rfn⟩ ops).1.obj = (ukfSysRun inv ⟨uo, Rfn⟩ ops).1.obj.stored := by
+  induction ops generalizing so uo with
+  | nil => exact ⟨rfl, hskip, hlik⟩
+  | cons op ops ih =>
+    have hop := hadm op (List.mem_cons_self ..)
+    have hrest : ∀ op' ∈ ops, op'.Admissible Rfn := fun op' h => hadm op' (List.mem_cons_of_mem _ h)
+    cases op with
+    | correct c =>
+      obtain ⟨hdiv, hg⟩ := hop
+      by_cases hs : so.skip = true
+      · have hu : uo.skip = true := hskip ▸ hs
+        obtain ⟨i1, i2, i3⟩ := ih hrest so uo hskip hlik
+        simp only [sukfSysRun, ukfSysRun, sukfSysStep, ukfSysStep, hs, hu, if_true]
+        exact ⟨by rw [i1], i2, i3⟩
+      · have hs' : so.skip = false := by simpa using hs
+        have hu : uo.skip = false := hskip ▸ hs'
+        obtain ⟨e1, e2⟩ := sukf_step_eq_ukf_step inv hinv Rfn c hdiv hg false
+        obtain ⟨i1, i2, i3⟩ := ih hrest { skip := false, stored := sukfStepStored bs c }
+          { skip := false, stored := (ukfStep inv bs hdiv (Rfn c.msz) c.inp c.b c.out).2 } rfl e2
+        simp only [sukfSysRun, ukfSysRun, sukfSysStep, ukfSysStep, hs', hu, Bool.false_eq_true, if_false, dif_pos hdiv]
+        exact ⟨by rw [i1, e1], i2, i3⟩
+    | skip st =>
+      obtain ⟨i1, i2, i3⟩ := ih hrest { so with skip := st } { uo with skip := st } rfl hlik
+      simp only [sukfSysRun, ukfSysRun, sukfSysStep, ukfSysStep]
+      exact ⟨by rw [i1], i2, i3⟩
+    | move =>
+      obtain ⟨i1, i2, i3⟩ := ih hrest (sukfMoved so) { skip := uo.skip, stored := none } hskip rfl
+      simp only [sukfSysRun, ukfSysRun, sukfSysStep, ukfSysStep]
+      exact ⟨by rw [i1], i2, i3⟩
+    | query =>
+      obtain ⟨i1, i2, i3⟩ := ih hrest so uo hskip hlik
+      simp only [sukfSysRun, ukfSysRun, sukfSysStep, ukfSysStep]
+      exact ⟨by rw [i1, hlik], i2, i3⟩
+    | setNoise f => exact absurd hop (by simp [SukfOp.Admissible])
+
+/-- in particular from construction: a new `SUKFCorrection` and a new `UKFCorrection` are observationally equal on
+    every admissible history -/
+theorem sukf_history_eq_ukf_fresh (inv : InvFn ℝ) (hinv : InvCorrect inv) (Rfn : NoiseFn ℝ bs)
+    (ops : List (SukfOp ℝ bs)) (hadm : ∀ op ∈ ops, op.Admissible Rfn) :
+    (sukfSysRun inv ⟨sukfNew, Rfn⟩ ops).2 = (ukfSysRun inv ⟨{ skip := false, stored := none }, Rfn⟩ ops).2 :=
+  (sukf_history_eq_ukf inv hinv Rfn ops hadm sukfNew { skip := false, stored := none } rfl rfl).1
+
+/-- Where the two objects part (outside the property: a measurement model whose noise covariance changes between a
+    correction and the query): the serial correction evaluates its likelihood with the noise covariance reported *at
+    query time*, the standard one answers from members written by the step. -/
+theorem sukf_query_uses_current_noise (inv : InvFn ℝ) (σ : SukfSys ℝ bs) (τ : UkfSys ℝ bs) (f : NoiseFn ℝ bs) :
+    (sukfSysRun inv σ [.setNoise f, .query]).2 = [.lik (sukfObjLik inv f σ.obj)] ∧
+    (ukfSysRun inv τ [.setNoise f, .query]).2 = [.lik τ.obj.stored] := ⟨rfl, rfl⟩
+
+/-- non-vacuity of the history statements: a history with a skipped correction, a move and queries is admissible,
+    and its last touch is the move -/
+example : ∃ (c : SukfCall ℝ), (∀ op ∈ ([.skip true, .correct c, .skip false, .query, .move, .query] : List (SukfOp ℝ 1)),
+      op.Admissible (fun _ => SNoise.reduced Mat.one)) ∧
+    sukfLastTouch false ([.skip true, .correct c, .skip false, .query, .move, .query] : List (SukfOp ℝ 1)) = some .move := by
+  let inp : SukfIn ℝ 1 1 3 1 :=
+    { validMeas := false, validPred := true, validInnov := true, y := Vec.of (fun _ => 0), X := fun _ => Mat.zero,
+      Yp := fun _ => Mat.zero, nc := 0, wm := Vec.of (fun _ => 0), wc := Vec.of (fun _ => 0) }
+  let g : GM ℝ 1 1 := { mean := fun _ => Vec.of (fun _ => 0), cov := fun _ => Mat.one, weight := Vec.of (fun _ => 1) }
+  refine ⟨{ n := 1, msz := 1, s := 3, k := 1, inp := inp, b := g, out := g }, ?_, rfl⟩
+  intro op hop
+  simp only [List.mem_cons, List.mem_nil_iff, or_false] at hop
+  rcases hop with h | h | h | h | h | h <;> subst h <;> simp [SukfOp.Admissible, inp]
+
+end history
 
 end BFL
